@@ -4,6 +4,8 @@ CONSTANTS
   MaxPkgs = 3
   ATOMIC = TRUE
   REGFIRST = TRUE
+  CHANNELNR = TRUE
+  MaxSends = 3
   PTRACK = FALSE
-INVARIANTS C12_DistinctIds C12_SetupSucceedsOnAck C12_RoutedToHeaderChannel C12_InOrder C12_NoCrossTalk C12_NoReuseAfterClose C12_AckReachesItsChannel
+INVARIANTS C12_DistinctIds C12_SetupSucceedsOnAck C12_RoutedToHeaderChannel C12_InOrder C12_NoCrossTalk C12_NoReuseAfterClose C12_AckReachesItsChannel C12_ConsecutiveNumbers
 CHECK_DEADLOCK FALSE
